@@ -1,6 +1,7 @@
 (* C15 driver.
-   input  (S <query cps> <root node>)  -> (ok 0|1) | (exn Name)      bool(QueryHandler(q).search(s))
-          (C <query cps>)              -> (ok ntokens balanced) | (exn Name balanced)   compile only
+   input  (S fx limit <query cps> <root node>)  -> (ok 0|1) | (exn Name)      bool(QueryHandler(q).search(s))
+          (C fx limit <query cps>)              -> (ok ntokens balanced) | (exn Name balanced)   compile only
+   fx = 1: the repaired code (fix: commits), limit = available nesting depth
    node = (T id (terms...) short org) | (G id (children...)); a term/short/org is a list of code points *)
 let exn_sx (e : exn) : sx = A (match e with
   | TypeError -> "TypeError" | KeyError -> "KeyError" | AttributeError -> "AttributeError"
@@ -15,13 +16,13 @@ let rec sx_node (x : sx) : node = match x with
 let () = main_loop (fun x ->
   ignore (force_types O N0);
   match x with
-  | L [A "S"; q; root] ->
-    (match search (sx_str q) (sx_node root) with
+  | L [A "S"; fx; lim; q; root] ->
+    (match search (sx_bool fx) (sx_nat lim) (sx_str q) (sx_node root) with
      | Ok b -> L [A "ok"; bool_sx b]
      | Exn e -> L [A "exn"; exn_sx e])
-  | L [A "C"; q] ->
+  | L [A "C"; fx; lim; q] ->
     let s = sx_str q in
-    (match compile s with
+    (match compile (sx_bool fx) (sx_nat lim) s with
      | Ok _ -> L [A "ok"; A (string_of_int (List.length (tokenize (fold s)))); bool_sx (balanced_groupers s)]
      | Exn e -> L [A "exn"; exn_sx e; bool_sx (balanced_groupers s)])
   | _ -> failwith "bad-input")
